@@ -312,8 +312,8 @@ class ProgGen(object):
         size = self.bits if self.rng.random() < 0.7 else 32
         d = self.pick_dst(size)
         b = self.pick_src(size)
-        i = self.pick_src(size)
-        asz = self.bits
+        i = self.pick_src(size, exclude=(b,))     # base == index: miasm's assembler emits a malformed
+        asz = self.bits                             # disp8 form with a 4-byte displacement (C15's business)
         sc = self.rng.choice([1, 2, 4, 8])
         disp = self.rng.choice([0, 1, 4, 0x10, 0x7f, 0x1234, 0x7fffffff])
         expr = "%s+%s*0x%x" % (regname(b, asz), regname(i, asz), sc)
